@@ -650,7 +650,16 @@ func c02Check(c *rt.C, b *jBundle, id, class string) {
 		ok, _, _, _ := rt.Guard(func() { cp, err = compileBundlePackage(mb, pkg) })
 		c.EndBudget()
 		if !ok || err != nil {
-			c.Event("bundle_does_not_compile") // acceptance is C07's subject
+			// no descriptors at all for a package written within the documented language: the declared
+			// contract is not what the compiler delivered (C07 judges the same event as "not accepted")
+			c.Event("bundle_does_not_compile")
+			sig := "panic"
+			if err != nil {
+				sig = errSig(err)
+			}
+			d := srcDetail(src)
+			d["id"] = id
+			c.Violate("rejected/"+sig, fmt.Sprintf("%s: package %s of a valid bundle yields no descriptors: %v", id, pkg, err), d)
 			return
 		}
 		for _, fd := range typedProtos(cp.Protos) {
